@@ -3,7 +3,6 @@ import MythVerif.Proofs.WsQueueTsoTac
 namespace MythVerif.WsqTso
 open MythVerif.Wsq
 
-set_option maxHeartbeats 4000000 in
 theorem t_tk3 (s s' : St) (p : Pid) (b x) : Inv s → s.tpc p = .tk3 b x → stepT s p = some s' → Inv s' := by
   intro h heq hs
   have hb := h.tbufE p (by simp [heq, mayBuf])
@@ -11,7 +10,6 @@ theorem t_tk3 (s s' : St) (p : Pid) (b x) : Inv s → s.tpc p = .tk3 b x → ste
   simp at hs; subst hs
   tso_fastT h p [tk3]
 
-set_option maxHeartbeats 4000000 in
 theorem t_tk4 (s s' : St) (p : Pid) (r) : Inv s → s.tpc p = .tk4 r → stepT s p = some s' → Inv s' := by
   intro h heq hs
   have hcfg := h.cfg
@@ -20,7 +18,6 @@ theorem t_tk4 (s s' : St) (p : Pid) (r) : Inv s → s.tpc p = .tk4 r → stepT s
   simp at hs; subst hs
   tso_fastT h p [tk4]
 
-set_option maxHeartbeats 4000000 in
 theorem t_tk5 (s s' : St) (p : Pid) (b) : Inv s → s.tpc p = .tk5 b → stepT s p = some s' → Inv s' := by
   intro h heq hs
   have hb := h.tbufE p (by simp [heq, mayBuf])
@@ -28,7 +25,6 @@ theorem t_tk5 (s s' : St) (p : Pid) (b) : Inv s → s.tpc p = .tk5 b → stepT s
   simp at hs; subst hs
   tso_fastT h p [tk5]
 
-set_option maxHeartbeats 4000000 in
 theorem t_tk6 (s s' : St) (p : Pid) : Inv s → s.tpc p = .tk6 → stepT s p = some s' → Inv s' := by
   intro h heq hs
   have hcfg := h.cfg
